@@ -17,7 +17,7 @@ from __future__ import annotations
 
 import ast
 
-from .index import AnalysisError, ClassInfo, EnumVal, unparse
+from .index import AnalysisError, ClassInfo, EnumVal, unparse, NotConst
 from .values import Top, HObj, Ref, Exc, State, ClassVal, GE2
 from .absint import Interp
 from .report import Finding
@@ -26,6 +26,7 @@ from . import oracle
 from .rules_summary import build_tree, _attr_stubs
 
 WHAT = {
+    "J7": "the sanitiser's character table covers every code point XML 1.0 forbids (and no ordinary character)",
     "J1": "user-controlled text reaches XML attributes / CDATA only through the sanitisers; nothing deletes characters after the ']]>' neutralisation",
     "J2": "tests/errors/failures/skipped counters equal the appended test cases and their child entries",
     "J3": "a failed/errored scenario carries exactly one failure/error entry that names the responsible step (also a background step)",
@@ -370,3 +371,53 @@ def check_walker_and_capture(chk, ix):
     else:
         chk.fail(Finding("J6", cf.fullname, "not forced: %s" % sorted(need - forced), "with --junit the capture switches %s are not forced on" % sorted(need - forced),
                          file=cf.file, line=cf.lineno))
+
+
+def check_illegal_char_table(chk, ix):
+    """J7: the table the sanitiser's pattern is built from covers every code point XML 1.0 forbids.
+    XML 1.0 Char ::= #x9 | #xA | #xD | [#x20-#xD7FF] | [#xE000-#xFFFD] | [#x10000-#x10FFFF]"""
+    chk.rule("J7", WHAT["J7"])
+    f = ix.func("behave.reporter.junit:_compile_invalid_re")
+    table = None
+    for n in ast.walk(f.node):
+        if isinstance(n, ast.Assign) and isinstance(n.value, ast.List) and n.value.elts and all(isinstance(e, ast.Tuple) and len(e.elts) == 2 for e in n.value.elts):
+            try:
+                table = [tuple(ix.fold(x, f.module) for x in e.elts) for e in n.value.elts]
+            except NotConst:
+                table = None
+    if not table or not all(isinstance(a, int) and isinstance(b, int) for a, b in table):
+        raise AnalysisError("anchor missing: the literal table of illegal code point ranges in _compile_invalid_re")
+    must = [(0x00, 0x08), (0x0B, 0x0C), (0x0E, 0x1F), (0xD800, 0xDFFF), (0xFFFE, 0xFFFF)]
+    legal_must_not = [0x09, 0x0A, 0x20, 0x41, 0xD7FF, 0xE000, 0xFFFD, 0x10000]
+
+    def covered(cp):
+        return any(lo <= cp <= hi for lo, hi in table)
+    for lo, hi in must:
+        chk.instance("J7")
+        missing = [cp for cp in range(lo, hi + 1) if not covered(cp)]
+        if not missing:
+            chk.ok("J7", {"forbidden_range": "U+%04X-U+%04X" % (lo, hi), "covered_by_table": True}, nontrivial_key=(lo, hi))
+        else:
+            chk.fail(Finding("J7", f.fullname, "U+%04X not in the table" % missing[0],
+                             "the code points %s (forbidden in XML 1.0) are not in the table the sanitiser's pattern is built from: such a "
+                             "character in a name, message or captured output is written raw and the report is not well-formed" % (
+                                 ", ".join("U+%04X" % c for c in missing[:6])), file=f.file, line=f.lineno, stmt="def _compile_invalid_re"))
+    chk.instance("J7")
+    bad = [cp for cp in legal_must_not if covered(cp)]
+    if not bad:
+        chk.ok("J7", {"ordinary characters (tab, newline, space, letters, plane-1)": "not in the table"}, nontrivial_key="legal")
+    else:
+        chk.fail(Finding("J7", f.fullname, "U+%04X is in the table" % bad[0], "the table of illegal characters contains the ordinary characters %s: "
+                         "reports lose legitimate text" % ", ".join("U+%04X" % c for c in bad), file=f.file, line=f.lineno))
+    # the table is what the pattern is compiled from and the pattern is what the escape function applies
+    chk.instance("J7")
+    src = unparse(f.node)
+    mod = f.module
+    esc = mod.functions.get("_escape_invalid_xml_chars")
+    uses = esc is not None and any(isinstance(n, ast.Attribute) and isinstance(n.value, ast.Name) and n.value.id in mod.consts and
+                                   unparse(mod.consts[n.value.id]).startswith("_compile_invalid_re(") for n in ast.walk(esc.node))
+    if "re.compile" in src and uses:
+        chk.ok("J7", {"_escape_invalid_xml_chars": "substitutes with the pattern compiled from the table"}, nontrivial_key="wiring")
+    else:
+        chk.fail(Finding("J7", f.fullname, "pattern not used", "_escape_invalid_xml_chars does not apply the pattern compiled from the table",
+                         file=f.file, line=f.lineno))
